@@ -1,34 +1,34 @@
-import MindsVerif.Lemmas.PlanJoin
+import MindsVerif.Lemmas.PlanQ
 /-!
 # C09 — every emitted plan is a well-formed, forward-only dataflow program
 
-Model: `MindsVerif.Plan` (`Model/Plan.lean`) — `QueryPlan.add_step`, and the step-stack / partition
-bookkeeping of `PlanJoinTablesQuery` (`get_join_sequence`, the model-first swap, the loop of
-`plan_join_tables`, `add_plan_step / add_step_to_partition / close_partition`, the `QueryStep`
-wrapper), over an abstract join skeleton.  Steps planned by *other* planners (nested selects, CTE
-bodies, sub-selects in FROM) enter as blocks that are assumed well-formed (`preOK`, `treeOK`).
+Model: `MindsVerif.Plan` (`Model/Plan.lean`, `Model/PlanQ.lean`) — `QueryPlan.add_step`; the step-stack /
+partition bookkeeping of `PlanJoinTablesQuery`; and the planners around it as functions on the plan model:
+`plan_select` dispatch, `plan_union`, `plan_cte`, nested selects replaced by `Parameter(Result)`,
+`plan_integration_select`, `plan_api_db_select`, `plan_integration_select_with_functions`,
+`plan_select_from_predictor` / `plan_project`, `plan_nested_select`, native query / data in FROM,
+`plan_sub_select`, the `PlanJoin.plan` dispatch, the time-series planner's step emission, and `from_query`
+with the DML planners — over a skeleton language (`Sel`, `Stmt`) whose constructors are the branches taken.
 
-What is proved (for all skeletons, all starting plans, by induction):
-* `C09_add_step` (T9.1), `C09_partial` (T9.2 for the pinned `add_plan_step`, excluding the
-  open-partition fall-through by the decidable hypothesis `noFallThrough`), `C09_fixed` (T9.2 for the
-  repaired `add_plan_step`, no exclusion), `C09_error_class` (T9.3, unconditional).
-What is *not* a theorem: the other planners (`plan_select_identifier`, `plan_nested_select`, the
-time-series planner, DML planners) and the abstraction of real steps to `(kind, num, refs)`;
-these are covered by the correspondence stream and the impl-level probe of `tools/props/c09.py`.
+What is proved (all skeletons, by induction):
+* `C09_partial` — `from_query` on every statement skeleton, started from the empty plan, raises a user-level
+  error or returns a plan numbered by position, forward-only (incl. sub-steps of containers), non-empty, whose
+  returned step is the last one.  *Partial* w.r.t. the property text because (i) which branch a real
+  query × catalog takes and (ii) the abstraction of real steps to `(class, step_num, references)` are outside
+  the model — tied by the correspondence streams and watched by the impl-level probe of `tools/props/c09.py`.
+* `C09_plan_select` — the same for `plan_select` in any environment of already planned results.
+* `C09_add_step` (T9.1), `C09_join` (T9.2 for the current `add_plan_step`), `C09_join_unrepaired`
+  (T9.2 for the code before commit faf0f40 under the decidable hypothesis `noFallThrough`),
+  `C09_error_class` (T9.3 at the join level, from *any* plan).
+* `C09_witness_*`: the defect of the unrepaired `add_plan_step` (KF-C09-1, fixed by faf0f40).
 -/
 namespace MindsVerif.Props.C09
 open MindsVerif.Plan
 
-/-- the modelled part of the full statement: from a well-formed plan, planning a join query either
-fails with a user-level error or yields a well-formed plan that extends the old one and whose
-returned step (the answer) is its last step -/
 def GoodResult (plan : List Step) : Except Err (List Step × SNum) → Prop
   | .ok (plan', x) =>
     stepsOK 0 plan' = true ∧ plan <+: plan' ∧ plan.length < plan'.length ∧ x = .top (plan'.length - 1)
   | .error e => IsUserErr e
-
-def C09_body (fixed : Bool) (q : JQ) (plan : List Step) : Prop :=
-  GoodResult plan (planJoin fixed q plan)
 
 instance (e : Err) : Decidable (IsUserErr e) :=
   match e with
@@ -41,13 +41,30 @@ instance (plan : List Step) : (r : Except Err (List Step × SNum)) → Decidable
       (stepsOK 0 plan' = true ∧ plan <+: plan' ∧ plan.length < plan'.length ∧ x = .top (plan'.length - 1)))
   | .error e => inferInstanceAs (Decidable (IsUserErr e))
 
-instance (fixed : Bool) (q : JQ) (plan : List Step) : Decidable (C09_body fixed q plan) :=
-  inferInstanceAs (Decidable (GoodResult plan (planJoin fixed q plan)))
+/-- the statement of C09 for one planner call started from `plan` (decidable) -/
+def C09_body (f : Planner) (plan : List Step) : Prop := GoodResult plan (f plan)
 
-/-- full statement for the pinned code — false (see `C09_witness_1`) -/
-def C09_full : Prop :=
-  ∀ (q : JQ) (plan : List Step), stepsOK 0 plan = true → preOK q.pre = true →
-    treeOK (planPre q.pre plan []).1.length q.tree = true → C09_body false q plan
+instance (f : Planner) (plan : List Step) : Decidable (C09_body f plan) :=
+  inferInstanceAs (Decidable (GoodResult plan (f plan)))
+
+theorem body_of_good {n : Nat} {f : Planner} (h : Good n f) (plan : List Step) (hl : n ≤ plan.length)
+    (hok : stepsOK 0 plan = true) : C09_body f plan := by
+  have := h plan hl hok
+  unfold C09_body GoodResult
+  cases hf : f plan with
+  | error e => rw [hf] at this; exact this
+  | ok r => obtain ⟨p, x⟩ := r; rw [hf] at this; exact this
+
+/-- full statement on the skeleton language: whatever statement is planned (current code) -/
+def C09_full : Prop := ∀ q : Stmt, C09_body (fromQuery true q) []
+
+/-- **C09 on the skeleton language** (see the header for what makes it partial w.r.t. the property text) -/
+theorem C09_partial : C09_full := fun q => body_of_good (fromQuery_good q) [] (Nat.le_refl _) rfl
+
+/-- `plan_select` on any skeleton, in any environment of earlier results, from any well-formed plan -/
+theorem C09_plan_select (s : Sel) (env : List SNum) (plan : List Step) (hok : stepsOK 0 plan = true)
+    (he : env.all (refOKTop plan.length) = true) : C09_body (den true s env).1 plan :=
+  body_of_good (den_good s env plan.length he).1 plan (Nat.le_refl _) hok
 
 /-- **T9.1** `QueryPlan.add_step` keeps steps numbered by position and forward-only -/
 theorem C09_add_step (plan : List Step) (s : Step) (h : stepsOK 0 plan = true)
@@ -57,58 +74,43 @@ theorem C09_add_step (plan : List Step) (s : Step) (h : stepsOK 0 plan = true)
     stepsOK 0 (addStep plan s) = true ∧ (addStep plan s).length = plan.length + 1 :=
   ⟨addStep_ok plan s h hn hr hs, by simp [addStep]⟩
 
-/-- **T9.3** user-level errors only, unconditionally (pinned and repaired code, every input) -/
-theorem C09_error_class (fixed : Bool) (q : JQ) (plan : List Step) :
-    match planJoin fixed q plan with
+/-- **T9.2 (current code)** the join planner, for every join tree whose table operands reference earlier
+results only and whose sub-select planners satisfy C09 -/
+theorem C09_join (t : JT) (wrap : Bool) (params : List SNum) (plan : List Step) (hok : stepsOK 0 plan = true)
+    (ht : TreeOK plan.length t) (hp : params.all (refOKTop plan.length) = true) :
+    C09_body (planJoin true t wrap params) plan :=
+  body_of_good (planJoin_good true plan.length t wrap params ht hp (Or.inl rfl)) plan (Nat.le_refl _) hok
+
+/-- **T9.2 (before faf0f40)**: without `close_partition` on the fall-through path the invariant holds for every
+join in which no table / sub-select operand follows a model that carries `partition_size` -/
+theorem C09_join_unrepaired (t : JT) (wrap : Bool) (params : List SNum) (plan : List Step)
+    (hok : stepsOK 0 plan = true) (ht : TreeOK plan.length t) (hp : params.all (refOKTop plan.length) = true)
+    (hnf : noFallThrough false (seqOf t) = true) : C09_body (planJoin false t wrap params) plan :=
+  body_of_good (planJoin_good false plan.length t wrap params ht hp (Or.inr hnf)) plan (Nat.le_refl _) hok
+
+/-- **T9.3 (join level)** from *any* plan, in both variants, incl. the fall-through class: the stack pops of the
+`Join` branch and the final `step_stack.pop()` never fail, provided sub-select planners raise user errors only -/
+theorem C09_error_class (fixed : Bool) (t : JT) (plan : List Step) (hno : leavesAll OperandNoInt t) :
+    match planJoinTables fixed t plan with
     | .ok _ => True
     | .error e => IsUserErr e := by
-  unfold planJoin
-  rcases planJoinTables_error_class fixed q.tree (planPre q.pre plan []).1 with ⟨r, h⟩ | ⟨e, h, hu⟩
-  · rw [h]; obtain ⟨p, j⟩ := r; cases q.wrap <;> simp
+  rcases planJoinTables_error_class fixed t plan hno with ⟨r, h⟩ | ⟨e, h, hu⟩
+  · rw [h]; trivial
   · rw [h]; exact hu
 
-theorem body_of (fixed : Bool) (q : JQ) (plan : List Step)
-    (hok : stepsOK 0 plan = true) (hpre : preOK q.pre = true)
-    (ht : treeOK (planPre q.pre plan []).1.length q.tree = true)
-    (hnf : fixed = true ∨ noFallThrough false (seqOf q.tree) = true) : C09_body fixed q plan := by
-  unfold C09_body GoodResult
-  have he := C09_error_class fixed q plan
-  cases h : planJoin fixed q plan with
-  | error e => rw [h] at he; exact he
-  | ok r => obtain ⟨plan', x⟩ := r; exact planJoin_inv fixed q plan hok hpre ht hnf plan' x h
-
-/-- **T9.2 (pinned code)**: the invariant holds for every join query in which no table / sub-select
-operand follows a model that carries `partition_size`.  Missing w.r.t. `C09_full`: exactly that class. -/
-theorem C09_partial (q : JQ) (plan : List Step) (hok : stepsOK 0 plan = true) (hpre : preOK q.pre = true)
-    (ht : treeOK (planPre q.pre plan []).1.length q.tree = true)
-    (hnf : noFallThrough false (seqOf q.tree) = true) : C09_body false q plan :=
-  body_of false q plan hok hpre ht (Or.inr hnf)
-
-/-- **T9.2 (repair `fixes/C09_1.diff`)**: with `close_partition` on the fall-through path the
-invariant holds for every join query -/
-theorem C09_fixed (q : JQ) (plan : List Step) (hok : stepsOK 0 plan = true) (hpre : preOK q.pre = true)
-    (ht : treeOK (planPre q.pre plan []).1.length q.tree = true) : C09_body true q plan :=
-  body_of true q plan hok hpre ht (Or.inl rfl)
-
-/-! ### witnesses -/
+/-! ### witnesses: the defect of the unrepaired `add_plan_step` (KF-C09-1, fixed by faf0f40) -/
 
 /-- `t JOIN model JOIN t2 ON t.id = t2.id USING partition_size=N` -/
-def w1 : JQ :=
-  ⟨[], .join (.join (.leaf (.table false [] [])) (.leaf (.predictor false true))) (.leaf (.table false [0] [])), false⟩
-
-/-- same without a usable ON filter (no `SubSelectStep`): the sub-step still consumes `Result(2)` -/
-def w2 : JQ :=
-  ⟨[], .join (.join (.leaf (.table false [] [])) (.leaf (.predictor false true))) (.leaf (.table false [] [])), true⟩
+def w1 : JT := .join (.join (.leaf (.table false [] [])) (.leaf (.predictor false true))) (.leaf (.table false [0] []))
 
 /-- `t JOIN model JOIN (sub-select) AS s USING partition_size=N` -/
-def w3 : JQ :=
-  ⟨[], .join (.join (.leaf (.table false [] [])) (.leaf (.predictor false true)))
-      (.leaf (.subselect true [⟨.fetch, some (.top 0), [], []⟩] 0)), false⟩
+def w3 : JT := .join (.join (.leaf (.table false [] [])) (.leaf (.predictor false true)))
+  (.leaf (.subselect true (pStep .fetch [])))
 
-/-- the pinned code emits, for `w1`, exactly the plan observed on the real planner: step 1 is a
+/-- the unrepaired code emitted, for `w1`, exactly the plan observed on the planner before faf0f40: step 1 is a
 map-reduce step whose third sub-step consumes `Result(3)`, and the returned step is step 1 of 4 -/
 theorem C09_witness_1 :
-    (planJoin false w1 []).toOption = some (
+    (planJoin false w1 false [] []).toOption = some (
       [⟨.fetch, some (.top 0), [], []⟩,
        ⟨.mapreduce, some (.top 1), [.top 0],
          [⟨.apply, some (.sub 1 0), [.top 0]⟩,
@@ -117,38 +119,37 @@ theorem C09_witness_1 :
        ⟨.subselect, some (.top 2), [.top 0], []⟩,
        ⟨.fetch, some (.top 3), [.top 2], []⟩], .top 1) := by decide
 
-theorem C09_witness_1_not : ¬ C09_body false w1 [] := by decide
-theorem C09_witness_2_not : ¬ C09_body false w2 [] := by decide
-theorem C09_witness_3_not : ¬ C09_body false w3 [] := by decide
+theorem C09_witness_1_not : ¬ C09_body (planJoin false w1 false []) [] := by decide
+theorem C09_witness_2_not : ¬ C09_body (planJoin false w1 true []) [] := by decide
+theorem C09_witness_3_not : ¬ C09_body (planJoin false w3 false []) [] := by decide
 
-/-- hence the full statement is false for the pinned code -/
-theorem C09_full_false : ¬ C09_full := fun h => C09_witness_1_not (h w1 [] rfl rfl rfl)
+/-- the witnesses are exactly in the class excluded from `C09_join_unrepaired` … -/
+example : noFallThrough false (seqOf w1) = false := by decide
+example : noFallThrough false (seqOf w3) = false := by decide
+/-- … and the current code handles them -/
+example : C09_body (planJoin true w1 false []) [] := by decide
+example : C09_body (planJoin true w3 false []) [] := by decide
 
-/-- the witnesses are exactly in the excluded class … -/
-example : noFallThrough false (seqOf w1.tree) = false := by decide
-example : noFallThrough false (seqOf w3.tree) = false := by decide
-/-- … and the repaired code handles them -/
-example : C09_body true w1 [] := by decide
-example : C09_body true w3 [] := by decide
-
-/-! ### non-vacuity: the hypotheses of `C09_partial` are satisfiable, with and without partitions -/
+/-! ### non-vacuity / concrete instances of the skeleton language -/
 
 /-- `t JOIN m1 JOIN m2 USING partition_size=N` (tests/test_planner/test_join_predictor.py::test_partition) -/
-def ok1 : JQ :=
-  ⟨[], .join (.join (.leaf (.table false [] [])) (.leaf (.predictor false true))) (.leaf (.predictor false true)), true⟩
+def ok1 : Sel := .joinTables (.jJoin (.jJoin (.jTable false [] []) (.jModel false true)) (.jModel false true)) true []
 
-/-- `with c as (…) select … from t1 join t2 on … join (select …) s where t1.x = (select …)` -/
-def ok2 : JQ :=
-  ⟨[([⟨.fetch, some (.top 0), [], []⟩], 0, false), ([⟨.fetch, some (.top 0), [], []⟩], 0, true)],
-   .join (.join (.leaf (.table true [] [0, 1])) (.leaf (.table false [0] [])))
-     (.leaf (.subselect true [⟨.fetch, some (.top 0), [], []⟩, ⟨.subselect, some (.top 1), [.top 0], []⟩] 1)), true⟩
+/-- `with c as (…) select …, (select …) from c join t2 on c.id = t2.id join (select … from a join m) s where c.x = (select …)` -/
+def ok2 : Sel :=
+  .bind (.table false []) (.bind (.table false []) (.bind (.table false [])
+    (.joinTables (.jJoin (.jJoin (.jTable true [] [2, 0]) (.jTable false [0] []))
+        (.jSub true (.joinTables (.jJoin (.jTable false [] []) (.jModel false false)) false []))) true [1, 0])))
 
-example : noFallThrough false (seqOf ok1.tree) = true ∧ preOK ok1.pre = true ∧
-    treeOK (planPre ok1.pre [] []).1.length ok1.tree = true := by decide
-example : noFallThrough false (seqOf ok2.tree) = true ∧ preOK ok2.pre = true ∧
-    treeOK (planPre ok2.pre [] []).1.length ok2.tree = true := by decide
-example : (planJoin false ok1 []).toOption.map (fun r => r.1.length) = some 3 := by decide
-example : (planJoin false ok2 []).toOption.map (fun r => r.1.length) = some 11 := by decide
+/-- `insert into t (select * from a union select * from (select * from m where x = 1))` -/
+def ok3 : Stmt := .insertSelect (.union (.table false []) (.fromSelect (.predictor false [] true []) true))
+
+example : ((den false ok1 []).1 []).toOption.map (fun r => r.1.length) = some 3 := by decide
+example : ((den true ok2 []).1 []).toOption.map (fun r => (r.1.length, r.2)) = some (13, .top 12) := by decide
+example : ((fromQuery true ok3) []).toOption.map (fun r => (r.1.length, r.2)) = some (5, .top 4) := by decide
+example : TreeOK 0 (den false ok1 []).2 := (den_good ok1 [] 0 rfl).2
+example : noFallThrough false (seqOf (den false
+    (.jJoin (.jJoin (.jTable false [] []) (.jModel false true)) (.jModel false true)) []).2) = true := by decide
 
 /-- `add_step` keeps a truthy `step_num`: re-adding a numbered step breaks the numbering (model-level
 observation; no planner path does this today) -/
